@@ -152,16 +152,71 @@ def tamper(v, tier, rnd):
     return n, [c[0] for c in cases]
 
 
+def tamper_at_endpoint(v, tier, rnd):
+    """The same at the endpoint: a modified copy of a protected request - one that was answered already (a would-be retransmission) or a fresh one - handed to
+    the real receiver through dispatch_message draws no reply and changes nothing (the receiver must check before it consults its retransmission cache)."""
+    import probes
+    n = 0
+    w = wd.World(seed=common.SEED + 1)
+    try:
+        log = w.establish('A')
+        a, b = w.sas('A')[0], w.sas('B')[0]
+        answered = [('IKE_AUTH request (answered)', 'B', bytes(log[2][1]))]
+        req = bytes(w.acquire('A', sport=0, dport=0))
+        w.dispatch('A', w.dispatch('B', req, 'A'), 'B')
+        answered.append(('CREATE_CHILD_SA request (answered)', 'B', req))
+        b.start_dpd_at = w.now - 1
+        dpd = bytes(w.timer('B', b, 'check_dead_peer_detection_timer'))
+        w.dispatch('B', w.dispatch('A', dpd, 'B'), 'A')
+        answered.append(('INFORMATIONAL request of the original responder (answered)', 'A', dpd))
+        a.start_dpd_at = w.now - 1
+        fresh = bytes(w.timer('A', a, 'check_dead_peer_detection_timer'))
+        answered.append(('INFORMATIONAL request (not yet delivered)', 'B', fresh))
+        for name, dst, data in answered:
+            icv = 16
+            variants = []
+            for pos in sorted(set(list(range(16, 36)) + [36, 40, 47, 48, 49, len(data) // 2, len(data) - icv - 1, len(data) - icv, len(data) - 2, len(data) - 1])):
+                if 0 <= pos < len(data):
+                    for bit in (0, 7):
+                        d = bytearray(data)
+                        d[pos] ^= 1 << bit
+                        variants.append((f'bit {bit} of octet {pos}', bytes(d)))
+            variants += [('truncated by one octet', data[:-1]), ('cut to the header', data[:28]), ('extended by 16 octets', data + b'\0' * 16),
+                         ('encrypted payload zeroed', data[:32] + b'\0' * (len(data) - 32)), ('checksum zeroed', data[:-icv] + b'\0' * icv)]
+            for label, d in variants:
+                if d[20:24] != data[20:24] or d[18] != data[18] or d[19] != data[19]:
+                    continue                # another Message ID / exchange type / flags: a different message of the window, judged by C03 / C08
+                before = probes.world_snapshot(w, with_dpd=True)
+                try:
+                    reply = w.dispatch(dst, d, w.peer_of(dst))
+                except wd.Escape as ex:
+                    if type(ex.ex).__name__ in ('InvalidSyntax', 'UnsupportedCriticalPayload'):
+                        reply = None
+                    else:
+                        v.violation(f'{name}, {label}: {ex}', {}, signature={'component': 'tamper-endpoint:escape'})
+                        continue
+                n += 1
+                diff = probes.diff_snapshots(before, probes.world_snapshot(w, with_dpd=True))
+                if reply is not None or diff:
+                    v.violation(f'{name}, {label}: the modified datagram is {"answered" if reply is not None else "not answered"}' + (f' and changes {diff[:2]}' if diff else ''),
+                                {'data': d.hex()}, signature={'component': 'tamper-endpoint', 'message': name.split(' (')[0], 'answered': reply is not None})
+                    break
+    finally:
+        w.close()
+    return n
+
+
 def run(tier, replay=None):
     v = common.Verdict('C07', tier, 'exploration')
     rnd = random.Random(common.SEED)
     n_frame, samples = framing(v, tier)
     n_tamper, names = tamper(v, tier, rnd)
+    n_endpoint = tamper_at_endpoint(v, tier, rnd)
     # "everything after IKE_SA_INIT travels inside the encrypted payload": monitored on every datagram of the Ike.tla replays
     from checks import ikeprop
     ikeprop.run(v, ['init'] if tier == 'quick' else ['init', 'estab'], limit=800 if tier == 'quick' else 6000)
     v.coverage.update({'evaluations': n_frame + n_tamper, 'distinct_nontrivial': n_frame + n_tamper,
-                       'framing_cases': n_frame, 'tamper_cases': n_tamper, 'tampered_messages': names,
+                       'framing_cases': n_frame, 'tamper_cases': n_tamper, 'tampered_copies_at_the_endpoint': n_endpoint, 'tampered_messages': names,
                        'rule': 'framing: inner lengths 0 and 5..48 (every residue mod 16 three times) x AES-128/256 x 3 integrity algorithms, each compared with '
                                'Wire.tla SkFraming (pad, lengths, MAC coverage) and opened with independent AES-CBC / HMAC; tamper: every octet x bits {0,7} '
                                '(thorough: all 8) of one protected message per exchange type incl. empty payload lists, every truncation, extensions, other integrity keys; '
